@@ -1323,7 +1323,8 @@ class DesignSpace:
         if minus_lb:
             out[..., norm_inds] += lower_bounds[norm_inds]
 
-        if not self.__no_integer:
+        # Only a point is rounded; with minus_lb=False the vector is a gradient.
+        if minus_lb and not self.__no_integer:
             self.round_vect(out, copy=False)
             if recast_to_int:
                 out = out.astype(self.__INT_DTYPE)
